@@ -22,6 +22,10 @@ def na(pid, reason):
 
 exec(open(os.path.join(V, "tools", "claims.py")).read())
 
+ALL = [json.loads(l)["id"] for l in open(os.path.join(V, "properties.jsonl")) if l.strip()]
+missing = [p for p in ALL if p not in CLAIMED and p not in NOT_YET]
+if missing:
+    raise SystemExit("properties neither claimed nor listed as not applicable: %s" % missing)
 checks = []
 for pid in sorted(CLAIMED):
     cat, text, ref, note, tech = CLAIMED[pid]
